@@ -192,6 +192,103 @@ namespace vf
       }
    };
 
+   // token form of a printed type name (PEGTL's demangle, i.e. the compiler's spelling): identifiers without namespaces, < > , ,
+   // character literals as #<byte> (octal / hex / simple escapes), integers as N<value>; "" when something else occurs
+   inline std::string canonical_type_name( const std::string& t )
+   {
+      std::string out;
+      const auto add = [ & ]( const std::string& tok ) {
+         if( !out.empty() ) {
+            out += ' ';
+         }
+         out += tok;
+      };
+      std::size_t i = 0;
+      const std::size_t n = t.size();
+      while( i < n ) {
+         const char c = t[ i ];
+         if( c == ' ' ) {
+            ++i;
+         }
+         else if( c == '<' || c == '>' || c == ',' ) {
+            add( std::string( 1, c ) );
+            ++i;
+         }
+         else if( c == '\'' ) {
+            std::size_t j = i + 1;
+            unsigned long v = 0;
+            if( j < n && t[ j ] == '\\' ) {
+               ++j;
+               if( j >= n ) {
+                  return "";
+               }
+               if( t[ j ] == 'x' ) {
+                  ++j;
+                  while( j < n && std::isxdigit( static_cast< unsigned char >( t[ j ] ) ) ) {
+                     v = v * 16 + unsigned( std::isdigit( static_cast< unsigned char >( t[ j ] ) ) ? t[ j ] - '0' : ( std::tolower( t[ j ] ) - 'a' + 10 ) );
+                     ++j;
+                  }
+               }
+               else if( t[ j ] >= '0' && t[ j ] <= '7' ) {
+                  while( j < n && t[ j ] >= '0' && t[ j ] <= '7' ) {
+                     v = v * 8 + unsigned( t[ j ] - '0' );
+                     ++j;
+                  }
+               }
+               else {
+                  switch( t[ j ] ) {
+                     case 'n': v = 10; break;
+                     case 't': v = 9; break;
+                     case 'r': v = 13; break;
+                     case 'a': v = 7; break;
+                     case 'b': v = 8; break;
+                     case 'f': v = 12; break;
+                     case 'v': v = 11; break;
+                     default: v = static_cast< unsigned char >( t[ j ] ); break;
+                  }
+                  ++j;
+               }
+            }
+            else if( j < n ) {
+               v = static_cast< unsigned char >( t[ j ] );
+               ++j;
+            }
+            if( j >= n || t[ j ] != '\'' ) {
+               return "";
+            }
+            add( "#" + std::to_string( v & 255u ) );
+            i = j + 1;
+         }
+         else if( std::isdigit( static_cast< unsigned char >( c ) ) ) {
+            std::size_t j = i;
+            unsigned long long v = 0;
+            while( j < n && std::isdigit( static_cast< unsigned char >( t[ j ] ) ) ) {
+               v = v * 10 + unsigned( t[ j ] - '0' );
+               ++j;
+            }
+            while( j < n && ( t[ j ] == 'u' || t[ j ] == 'l' || t[ j ] == 'U' || t[ j ] == 'L' ) ) {
+               ++j;
+            }
+            add( "N" + std::to_string( v ) );
+            i = j;
+         }
+         else if( std::isalpha( static_cast< unsigned char >( c ) ) || c == '_' || c == ':' ) {
+            std::size_t j = i;
+            while( j < n && ( std::isalnum( static_cast< unsigned char >( t[ j ] ) ) || t[ j ] == '_' || t[ j ] == ':' ) ) {
+               ++j;
+            }
+            const std::string id = t.substr( i, j - i );
+            const std::size_t k = id.rfind( "::" );
+            add( k == std::string::npos ? id : id.substr( k + 2 ) );
+            i = j;
+         }
+         else {
+            return "";
+         }
+      }
+      return out;
+   }
+
    inline std::uint64_t tag_of_name( const std::string& tname )
    {
       // the namespace of a generated grammar ("g17::") is not part of the identity of a rule: a replay TU emits the same
